@@ -479,6 +479,25 @@ def _collector_calls(ctx, f):
     return out
 
 
+def _reaped_at_once(ctx, f, node, call):
+    """the collecting call is an is_alive() test whose dead outcome leads, on every path and
+    before the function ends or suspends, to Watcher.reap_process: the worker is unlisted and
+    its reap event published in the same synchronous step"""
+    if astq.call_last(call) != 'is_alive' or node.kind != 'test':
+        return False
+    cfg = ctx.cfg(f)
+    reaps = ctx.nodes_calling(f, [W + 'reap_process'])
+    if not reaps:
+        return False
+
+    def dead(e):
+        return False if isinstance(e, ast.Call) and astq.call_last(e) == 'is_alive' else None
+    r = reach_under(cfg, node, dead, avoid=reaps, labels_excluded=('exc', 'raise', 'reraise'))
+    stops = {cfg.exit.id} | {n.id for n in cfg.nodes if n.id != node.id and n.ast is not None and
+                             astq.has_yield(n)}
+    return not (set(r) & stops)
+
+
 def r9(run, ctx):
     run.rule('R9', "a child's exit status is collected only by the termination and reap routines")
     n = owners = 0
@@ -500,6 +519,10 @@ def r9(run, ctx):
         allowed = f.key in table or private_to_owners(f)
         owners += allowed
         for node, c, what in calls:
+            if not allowed and _reaped_at_once(ctx, f, node, c):
+                run.check('R9', True, '%s collects a child only to reap it in the same step'
+                          % f.qualname, f, node.ast)
+                continue
             run.check('R9', allowed, '%s may collect a child (%s)' % (
                 f.qualname, COLLECT_WRAPPERS.get(f.key) or COLLECT_OWNERS.get(f.key)),
                 f, node.ast,
